@@ -62,7 +62,62 @@ def run_one(pid, name, edits, tier="quick", keep=False, extra_env=None):
             shutil.rmtree(tmp, ignore_errors=True)
 
 
+def apply_edits(dst, edits):
+    for e in edits:
+        if e[0] == "revert":
+            d = subprocess.run(["git", "-C", "/repo", "diff", e[1] + "~1", e[1], "--", "src/python"], capture_output=True, text=True).stdout
+            pr = subprocess.run(["patch", "-R", "-p3", "-s", "-d", dst], input=d, capture_output=True, text=True)
+            if pr.returncode != 0:
+                return "revert %s failed" % e[1]
+            continue
+        rel, old, new = e
+        p = os.path.join(dst, rel)
+        s = open(p).read()
+        if s.count(old) != 1:
+            return "%s: %d matches" % (rel, s.count(old))
+        open(p, "w").write(s.replace(old, new))
+    return None
+
+
+def tests_pass(edits):
+    """Run the repository's own test suite against a scratch copy with the mutant applied.
+    -> (ok, summary line).  A mutant that the suite already kills is not a useful mutant."""
+    tmp = tempfile.mkdtemp(prefix="rvmut-t-")
+    try:
+        root = os.path.join(tmp, "repo")
+        shutil.copytree("/repo", root, ignore=shutil.ignore_patterns(".git", "__pycache__", "*.pyc", "node_modules", "src/ts"))
+        err = apply_edits(os.path.join(root, "src", "python"), edits)
+        if err:
+            return False, "BADMUTANT " + err
+        env = dict(os.environ, PYTHONPATH=os.path.join(root, "src", "python"), PYTHONDONTWRITEBYTECODE="1")
+        p = subprocess.run(["/venv/bin/python", "-m", "pytest", "-q", "-p", "no:cacheprovider", "--timeout=900", "--continue-on-collection-errors"],
+                           cwd=root, env=env, capture_output=True, text=True, timeout=1800)
+        last = [l for l in p.stdout.strip().splitlines() if l.strip()][-1] if p.stdout.strip() else ""
+        ok = "170 passed" in last and "failed" not in last
+        return ok, last
+    finally:
+        shutil.rmtree(tmp, ignore_errors=True)
+
+
+def main_tests(argv):
+    import concurrent.futures as cf
+
+    table = load_table()
+    want = [a.upper() for a in argv] or sorted(table)
+    jobs = [(pid, name, edits) for pid in want for name, edits in table.get(pid, []) if not any(e[0] == "revert" for e in edits)]
+    bad = 0
+    with cf.ThreadPoolExecutor(max_workers=6) as ex:
+        for (pid, name, edits), (ok, last) in zip(jobs, ex.map(lambda j: tests_pass(j[2]), jobs)):
+            print("%-4s %-60s %s  [%s]" % (pid, name[:60], "suite-green" if ok else "SUITE-KILLS-IT", last[-60:]))
+            sys.stdout.flush()
+            bad += 0 if ok else 1
+    print("mutants killed by the repository's own suite (not useful as sensitivity mutants): %d" % bad)
+    return 0 if not bad else 1
+
+
 def main(argv):
+    if argv and argv[0] == "--tests":
+        return main_tests(argv[1:])
     table = load_table()
     tier = "quick"
     if argv and argv[0] in ("quick", "thorough"):
